@@ -597,3 +597,32 @@ def run(chk: Check, eng: Engine) -> None:
                     chk.ok("R03-c", f.fq, n.lineno, f"`{short(n, 80)}` compares the evaluator's value unchanged ({opn})")
     if n_cmp == 0:
         chk.ok("R03-c", "fandango.*", 0, "no threshold comparison outside the evaluator", nontrivial=False)
+
+
+# ------------------------------------------------------------------ self-test variants
+from ..mutants import M  # noqa: E402
+
+_EV = "src/fandango/evolution/evaluation.py"
+_FT = "src/fandango/constraints/fitness.py"
+MUTANTS = [
+    M("share-arithmetic-hard", _EV, "            fitness = fitness * len(self._hard_constraints)\n",
+      "            fitness = fitness / total_constraint_count * len(self._hard_constraints) * total_constraint_count\n", "R03-a"),
+    M("divide-before-weighting", _EV, "            fitness += rep_fitness * len(self._repetition_bounds_constraints)\n",
+      "            fitness += rep_fitness / total_constraint_count * len(self._repetition_bounds_constraints) * total_constraint_count\n", "R03-a"),
+    M("strict-threshold", _EV, "        if fitness >= self._expected_fitness and key not in self._solution_set:",
+      "        if fitness > self._expected_fitness and key not in self._solution_set:", "R03-a"),
+    M("mean-with-epsilon", _EV, "        fitness /= len(constraints)\n        return (", "        fitness /= len(constraints) + 1e-09\n        return (", "R03-a"),
+    M("io-wrapper-strict", _EV, "        if fitness < self._expected_fitness:\n            return fitness, failing_trees, suggestion",
+      "        if fitness <= self._expected_fitness:\n            return fitness, failing_trees, suggestion", "R03-a"),
+    M("constraint-fitness-smoothing", _FT, "            return self.solved / self.total\n", "            return self.solved / (self.total + 1)\n", "R03-b"),
+    M("distance-fitness-scaled", _FT, "                return sum(self.values) / len(self.values)\n            except OverflowError:\n                # OverflowError: integer division result too large for a float\n                return sum(self.values) // len(self.values)\n        else:\n            return 0\n\n    def __copy__(self) -> Fitness:\n        return DistanceAwareConstraintFitness(",
+      "                return sum(self.values) / len(self.values) * 0.999\n            except OverflowError:\n                # OverflowError: integer division result too large for a float\n                return sum(self.values) // len(self.values)\n        else:\n            return 0\n\n    def __copy__(self) -> Fitness:\n        return DistanceAwareConstraintFitness(", "R03-b"),
+    M("api-rescales", "src/fandango/api.py", "                self.fandango.average_population_fitness\n                < self.fandango.evaluator.expected_fitness",
+      "                self.fandango.average_population_fitness * 1.0001\n                < self.fandango.evaluator.expected_fitness", "R03-c"),
+]
+TWINS = [
+    M("twin-rename-total", _EV, "total_constraint_count", "n_constraints", None, count=4),
+    M("twin-reorder-sum", _EV, "            len(self._hard_constraints)\n            + len(self._repetition_bounds_constraints)\n            + len(self._soft_constraints)",
+      "            len(self._soft_constraints)\n            + len(self._hard_constraints)\n            + len(self._repetition_bounds_constraints)", None),
+    M("twin-augassign", _EV, "            fitness = fitness / total_constraint_count\n", "            fitness /= total_constraint_count\n", None),
+]
